@@ -1,5 +1,6 @@
 import PhysisModel.Driver.C06Case
 import PhysisModel.Spec.MdlPlaced
+import PhysisModel.Spec.MdlFill
 namespace Physis.Driver.C06
 open Physis Physis.Proto Physis.Mdl Physis.Spec.Mdl Physis.Driver.C06Case
 
@@ -74,6 +75,52 @@ def parseLay (m : AbstractModel) (tok : String) : Option Placement := do
   some { vsecs := ls.map (·.1), vpre := ls.map (·.2.1), ipre := ls.map (·.2.2.1),
          offs := ls.flatMap (·.2.2.2) }
 
+/-! ### `declfill`: the same abstract model with arbitrary bytes where a declaration block carries
+no information (`Spec/MdlFill.lean`)
+
+```
+declfill fill=<seed> <model tokens as for `parse`>
+```
+The filler bytes come from a 64-bit LCG seeded with `<seed>`; one byte in four is 0xFF, one in four
+a value that is not a `VertexType` / `VertexUsage` discriminant; the marker slot's type and usage
+bytes are drawn from the valid discriminants (the only constraint `declFillOk` imposes). -/
+
+def lcg (s : UInt64) : UInt64 := s * 6364136223846793005 + 1442695040888963407
+
+def fillByte (s : UInt64) : UInt8 :=
+  let r := (s >>> 33)
+  match (r % 4).toNat with
+  | 0 => 0xFF
+  | 1 => if (r >>> 2) % 2 == 0 then 0x12 else ((8 : UInt8) + ((r >>> 3) % 200).toUInt8)
+  | _ => (r >>> 8).toUInt8
+
+def fillBytes : Nat → UInt64 → Bytes × UInt64
+  | 0, s => ([], s)
+  | n + 1, s =>
+    let s' := lcg s
+    let (bs, s'') := fillBytes n s'
+    (fillByte s' :: bs, s'')
+
+def validTypes : List UInt8 := [0, 1, 2, 3, 5, 6, 7, 8, 9, 10, 13, 14, 16, 17]
+
+def mkFill (d : List VertexElement) (s : UInt64) : DeclFill × UInt64 :=
+  let (pb, s1) := fillBytes (3 * d.length) s
+  let rec triples : Bytes → List (UInt8 × UInt8 × UInt8)
+    | a :: b :: c :: r => (a, b, c) :: triples r
+    | _ => []
+  let (mk, s2) := fillBytes 5 s1
+  let s3 := lcg s2
+  let s4 := lcg s3
+  let (tl, s5) := fillBytes ((16 - d.length) * 8) s4
+  ({ pads := triples pb, mkOffset := mk.getD 0 0, mkIndex := mk.getD 1 0,
+     mkPad := (mk.getD 2 0, mk.getD 3 0, mk.getD 4 0),
+     mkType := validTypes.getD ((s3 >>> 33) % 14).toNat 0, mkUsage := ((s4 >>> 33) % 8).toUInt8,
+     tail := tl }, s5)
+
+def mkFills : List (List VertexElement) → UInt64 → List DeclFill
+  | [], _ => []
+  | d :: ds, s => let (f, s') := mkFill d s; f :: mkFills ds s'
+
 /-- one case line in, one answer line out (see `Base/Proto.lean`) -/
 def handle (line : String) : String :=
   match fields line with
@@ -109,6 +156,22 @@ def handle (line : String) : String :=
           answer input modelAns
             ["triv", if !WF m then "outside:wf" else if !PlacedOk m p then "outside:placement"
                      else "outside:refs"]
+  | "declfill" :: fill :: toks =>
+    match parseModel toks, (kv fill).bind (fun (k, v) => if k == "fill" then v.toNat? else none) with
+    | some m, some seed =>
+      let fs := mkFills (modelData m).decls seed.toUInt64
+      let file := encodeMdlF m fs
+      let modelAns := resultText (fromExisting file)
+      let input := "parse " ++ Bytes.toHex file
+      if WF m && (view m).isSome && declFillsOk (modelData m).decls fs then
+        -- expected = the unchanged view (block and runtime-block level proved: `c06_decl_fill_*`,
+        -- `c06_grammar_fill_roundtrip`, `c06_headers_of_fill`; whole file by correspondence)
+        answer input (specText m)
+          (["decl:filled"] ++ (if hasWeightsByte4 m then ["kf:c06.blendweights-byte4"] else []))
+          (some modelAns)
+      else
+        answer input modelAns ["triv", if WF m then "outside:refs" else "outside:wf"]
+    | _, _ => bad
   | ["raw", h] =>
     match Bytes.ofHexFast h with
     | some bs => answer "=" (resultText (fromExisting bs)) ["corr"]
